@@ -46,6 +46,15 @@ type snapInput struct {
 	Reverse   bool           `json:"reverse_winding_order"`
 	Shape     string         `json:"shape"`
 	RevRings  []int          `json:"reverse_rings,omitempty"` // oracle 3: which input rings to hand over reversed
+	// Twins: after vertex V of ring R a second vertex follows on the edge to the next vertex,
+	// Eps away (digitising noise: two vertices closer together than any tolerance)
+	Twins []twin `json:"twins,omitempty"`
+}
+
+type twin struct {
+	R   int     `json:"ring"`
+	V   int     `json:"vertex"`
+	Eps float64 `json:"eps"`
 }
 
 type fakeCRS struct{}
@@ -294,6 +303,46 @@ func genInput(seed uint64) snapInput {
 		}
 		in.Valid = false
 	}
+	if r.Chance(0.06) {
+		// every vertex in the centre of a pixel of the reference level: what the library itself
+		// returns (its output fed back in)
+		for ri := range rings {
+			var nr [][2]int64
+			for _, p := range rings[ri] {
+				q := [2]int64{p[0] - mod64(p[0], pixL) + pixL/2, p[1] - mod64(p[1], pixL) + pixL/2}
+				if len(nr) == 0 || nr[len(nr)-1] != q {
+					nr = append(nr, q)
+				}
+			}
+			if len(nr) > 1 && nr[0] == nr[len(nr)-1] {
+				nr = nr[:len(nr)-1]
+			}
+			rings[ri] = nr
+		}
+		if len(rings[0]) < 3 {
+			rings = rings[:1]
+			rings[0] = [][2]int64{{cx - mod64(cx, pixL) + pixL/2, cy - mod64(cy, pixL) + pixL/2}, {cx - mod64(cx, pixL) + pixL/2 + 3*pixL, cy - mod64(cy, pixL) + pixL/2}, {cx - mod64(cx, pixL) + pixL/2, cy - mod64(cy, pixL) + pixL/2 + 2*pixL}}
+		}
+		kept := rings[:1]
+		for _, h := range rings[1:] {
+			if len(h) >= 3 {
+				kept = append(kept, h)
+			}
+		}
+		rings = kept
+		in.Shape += "/on-grid"
+	} else if r.Chance(0.08) {
+		// digitising noise: a vertex on a pixel edge of the deepest level and a second one a
+		// hair's breadth further along the ring, on the other side of that edge
+		for k, n := 0, 1+r.Intn(3); k < n; k++ {
+			ri := r.Intn(len(rings))
+			vi := r.Intn(len(rings[ri]))
+			axis := r.Intn(2)
+			rings[ri][vi][axis] -= mod64(rings[ri][vi][axis], 8)
+			in.Twins = append(in.Twins, twin{R: ri, V: vi, Eps: float64(1+r.Intn(9)) * math.Pow(10, -float64(6+r.Intn(4)))})
+		}
+		in.Shape += "/twin-vertices"
+	}
 	if r.Chance(0.05) {
 		// partly outside the grid, with the ignore flag: the answer (nothing) must not depend on
 		// anything either. Vertices keep clear of the one-pixel band just outside the edge,
@@ -340,6 +389,36 @@ func (in *snapInput) materialise() {
 		}
 		in.Rings = append(in.Rings, fr)
 	}
+	// twins, highest vertex index first so that the indices stay valid
+	tw := append([]twin(nil), in.Twins...)
+	sort.SliceStable(tw, func(i, j int) bool { return tw[i].V > tw[j].V })
+	for _, t := range tw {
+		if t.R >= len(in.Rings) || t.V >= len(in.Rings[t.R]) || len(in.Rings[t.R]) < 3 {
+			continue
+		}
+		ring := in.Rings[t.R]
+		a, b := ring[t.V], ring[(t.V+1)%len(ring)]
+		d := math.Hypot(b[0]-a[0], b[1]-a[1])
+		if d <= 4*t.Eps {
+			continue
+		}
+		q := [2]float64{a[0] + (b[0]-a[0])*t.Eps/d, a[1] + (b[1]-a[1])*t.Eps/d}
+		if q == a {
+			continue
+		}
+		nr := append([][2]float64(nil), ring[:t.V+1]...)
+		nr = append(nr, q)
+		nr = append(nr, ring[t.V+1:]...)
+		in.Rings[t.R] = nr
+	}
+}
+
+func mod64(a, m int64) int64 {
+	r := a % m
+	if r < 0 {
+		r += m
+	}
+	return r
 }
 
 func minI64(a, b int64) int64 {
@@ -743,6 +822,9 @@ type replayFile struct {
 	// Prelude: evaluate this many preceding seeds first (state kept across calls may make
 	// a violation depend on what the process did before)
 	Prelude      int             `json:"prelude,omitempty"`
+	// HistoryHi: the comparing process evaluated the seeds HistoryHi-1 down to Seed+1 before
+	// this one (the reference process evaluated them in ascending order): replayed first
+	HistoryHi uint64 `json:"history_hi,omitempty"`
 	Violation    *simh.Violation `json:"violation,omitempty"`
 	ShrinkArrays []string        `json:"shrink_arrays"`
 	ShrinkInts   []string        `json:"shrink_ints"`
@@ -1110,8 +1192,23 @@ func digests(job *simh.Job, out *simh.Out) {
 			simh.Fatalf("reference digests: have %d, want %d", len(ref), job.SeedHi-job.SeedLo)
 		}
 	}
-	for seed := job.SeedLo; seed < job.SeedHi; seed++ {
+	// the comparing process walks its block of seeds downwards, the reference process upwards:
+	// state kept across calls (a cache, a pool) then meets every input with another history
+	reverse := job.Extra["reverse"] == "1" && job.Extra["role"] == "compare"
+	for i := uint64(0); i < job.SeedHi-job.SeedLo; i++ {
+		seed := job.SeedLo + i
+		if reverse {
+			seed = job.SeedHi - 1 - i
+		}
 		in := genInput(seed)
+		// the same polygon is also snapped for other levels (another deepest level, same
+		// area); the reference process does that after, the comparing process before the
+		// call proper: state kept per quadrant or per pixel across calls shows as a difference
+		ids2 := otherLevels(&in, seed)
+		second := ""
+		if reverse && ids2 != nil {
+			second = canon(call(&in, ids2, in.Rings, in.Reverse))
+		}
 		first := ""
 		for k := 0; k < rep; k++ {
 			c := canon(call(&in, in.IDs, in.Rings, in.Reverse))
@@ -1127,11 +1224,17 @@ func digests(job *simh.Job, out *simh.Out) {
 				return
 			}
 		}
-		d := simrt.HashString(first)
+		if !reverse && ids2 != nil {
+			second = canon(call(&in, ids2, in.Rings, in.Reverse))
+		}
+		d := simrt.HashString(first + "|" + second)
 		if ref != nil && ref[seed-job.SeedLo] != d {
-			v := &simh.Violation{Class: "determinism/process-repetition", Message: "the un-instrumented library in a fresh process (Go's own map randomisation) returned geometry different from the instrumented library under the sorted order, for the same input"}
+			v := &simh.Violation{Class: "determinism/process-repetition", Message: "the un-instrumented library in another process (Go's own map randomisation; the inputs of its block evaluated in the opposite order) returned geometry different from the instrumented library under the sorted order, for the same input"}
 			rf := mkReplay(job, seed, in, nil, "process-repetition", v)
 			rf.Engine = "snapsim-plain"
+			if reverse {
+				rf.HistoryHi = job.SeedHi
+			}
 			rf.Digest = strconv.FormatUint(ref[seed-job.SeedLo], 16)
 			out.Line(map[string]interface{}{"t": "violation", "seed": seed, "replay": rf})
 			sum.SeedNext = seed
@@ -1147,6 +1250,36 @@ func digests(job *simh.Job, out *simh.Out) {
 	}
 	simh.WriteDigests(job.Out+".digests", ds)
 	out.Line(sum)
+}
+
+// otherLevels: the ids of the second call of the digest phases: the same list with its
+// deepest id replaced by a neighbouring level of the same tile matrix set (nil if there is
+// none).
+func otherLevels(in *snapInput, seed uint64) []int {
+	if len(in.IDs) == 0 {
+		return nil
+	}
+	t := loadTMS(in.TMS)
+	deep, at := in.IDs[0], 0
+	have := map[int]bool{}
+	for i, id := range in.IDs {
+		have[id] = true
+		if id > deep {
+			deep, at = id, i
+		}
+	}
+	var cands []int
+	for _, d := range []int{deep - 1, deep + 1, deep - 2, deep + 2, deep - 5} {
+		if _, ok := t.TileMatrices[d]; ok && d >= 0 && !have[d] {
+			cands = append(cands, d)
+		}
+	}
+	if len(cands) == 0 {
+		return nil
+	}
+	ids := append([]int(nil), in.IDs...)
+	ids[at] = cands[int(seed%uint64(len(cands)))]
+	return ids
 }
 
 func candidates(job *simh.Job, out *simh.Out) {
@@ -1170,10 +1303,27 @@ func candidates(job *simh.Job, out *simh.Out) {
 		case !ok:
 		case rf.Oracle == "repetition" || rf.Oracle == "process-repetition":
 			// plain build: repeat the call; compare with each other and with the recorded digest
+			for hs := rf.HistoryHi; hs > rf.Seed+1; hs-- {
+				hin := genInput(hs - 1)
+				if ids := otherLevels(&hin, hs-1); ids != nil {
+					call(&hin, ids, hin.Rings, hin.Reverse)
+				}
+				for k := 0; k < 3; k++ {
+					call(&hin, hin.IDs, hin.Rings, hin.Reverse)
+				}
+			}
 			first := ""
+			ids2 := otherLevels(&rf.Input, rf.Seed)
 			for k := 0; k < 64 && class == ""; k++ {
+				second := ""
+				if ids2 != nil && k == 0 {
+					second = canon(call(&rf.Input, ids2, rf.Input.Rings, rf.Input.Reverse))
+				}
 				c := canon(call(&rf.Input, rf.Input.IDs, rf.Input.Rings, rf.Input.Reverse))
-				d := strconv.FormatUint(simrt.HashString(c), 16)
+				if ids2 != nil && k > 0 {
+					second = canon(call(&rf.Input, ids2, rf.Input.Rings, rf.Input.Reverse))
+				}
+				d := strconv.FormatUint(simrt.HashString(c+"|"+second), 16)
 				if k == 0 {
 					first = c
 				}
